@@ -290,8 +290,9 @@ func (t *teeWriterTo) WriteTo(w io.Writer, closeCh chan struct{}) (int64, error)
 	if err == nil && t.full {
 		return n, t.err
 	}
-	if err == nil && t.limit >= 0 && t.err != nil && lw.left == 0 {
-		// the writer swallowed the write error: still report it
+	if err == nil && t.limit >= 0 && t.err != nil {
+		// the item was shorter than the limit, or the writer swallowed the write error:
+		// the injected fault still makes this persist fail
 		return n, t.err
 	}
 	return n, err
